@@ -144,10 +144,11 @@ type respRun struct {
 	Faults   int          `json:"faults"`   // handshake-level faults the TLS target injected (informational / machinery sanity)
 	Fatal    bool         `json:"fatal"`    // the documented fatal condition is being provoked
 	Mix      bool         `json:"mix"`
-	WallMs   int          `json:"wall_ms"` // informational
-	Retried  bool         `json:"retried"` // the run hit the driver's time limit once and was repeated alone
-	Kind     string       `json:"kind"`    // letters | substr (enumerated var/header modifier bounds)
-	Vlen     int          `json:"vlen"`    // substr runs: length of the header value
+	WallMs   int          `json:"wall_ms"`  // informational
+	Retried  bool         `json:"retried"`  // the run hit the driver's time limit once and was repeated alone
+	AVariant string       `json:"avariant"` // ammo variant (AmmoVariants of the spec)
+	Kind     string       `json:"kind"`     // letters | substr (enumerated var/header modifier bounds)
+	Vlen     int          `json:"vlen"`     // substr runs: length of the header value
 	Cases    []modCase    `json:"cases"`
 }
 
@@ -179,11 +180,15 @@ func postsYAML(p string) string {
 }
 
 // one scenario per shot position: m<i>_<letter> = [a<i> (postprocessors), b<i>]
-func httpScenarioPayload(letters []string, posts string) string {
+func httpScenarioPayload(letters []string, posts string, variant string) string {
 	var b strings.Builder
 	b.WriteString("requests:\n")
 	for i, l := range letters {
-		fmt.Fprintf(&b, "  - name: a%d\n    method: GET\n    uri: /a\n    headers:\n      X-Letter: %s\n%s", i, l, postsYAML(posts))
+		method := "    method: GET\n"
+		if variant == "body" {
+			method = "    method: POST\n    body: 'body=body'\n"
+		}
+		fmt.Fprintf(&b, "  - name: a%d\n%s    uri: /a\n    headers:\n      X-Letter: %s\n%s", i, method, l, postsYAML(posts))
 		fmt.Fprintf(&b, "  - name: b%d\n    method: POST\n    uri: /b\n    headers:\n      X-Letter: %s\n      X-Val: 'v{{.request.a%d.postprocessor.tok}}'\n    body: 'x={{.request.a%d.postprocessor.low}}'\n", i, l, i, i)
 	}
 	b.WriteString("scenarios:\n")
@@ -193,11 +198,20 @@ func httpScenarioPayload(letters []string, posts string) string {
 	return b.String()
 }
 
-func grpcScenarioPayload(letters []string) string {
+func grpcScenarioPayload(letters []string, variant string) string {
 	var b strings.Builder
 	b.WriteString("calls:\n")
 	for i, l := range letters {
-		fmt.Fprintf(&b, "  - name: a%d\n    tag: a\n    call: target.TargetService.Hello\n    payload: '{\"name\": \"%s\"}'\n    postprocessors:\n      - type: assert/response\n        payload: [Hello]\n        status_code: 200\n", i, l)
+		payload, meta := fmt.Sprintf("{\"name\": \"%s\"}", l), ""
+		switch variant {
+		case "meta":
+			meta = "    metadata:\n      x-trace: t1\n      x-user: u\n"
+		case "emptymeta":
+			payload, meta = "{}", fmt.Sprintf("    metadata:\n      x-letter: %s\n", l)
+		case "emptydefault":
+			payload = "{}"
+		}
+		fmt.Fprintf(&b, "  - name: a%d\n    tag: a\n    call: target.TargetService.Hello\n    payload: '%s'\n%s    postprocessors:\n      - type: assert/response\n        payload: [Hello]\n        status_code: 200\n", i, payload, meta)
 		fmt.Fprintf(&b, "  - name: b%d\n    tag: b\n    call: target.TargetService.Hello\n    payload: '{\"name\": \"%s\"}'\n", i, l)
 	}
 	b.WriteString("scenarios:\n")
@@ -215,15 +229,36 @@ func uriAmmo(letters []string) string {
 	return b.String()
 }
 
-func grpcAmmo(letters []string) string {
+// ammo variants (spec/Responses.tla AmmoVariants): "" plain; meta = the call carries metadata; emptymeta = empty payload, the
+// letter travels in the metadata; emptydefault = empty payload, no metadata (the target's default letter); body = the http
+// request is a POST with a body
+func grpcAmmo(letters []string, variant string) string {
 	var b strings.Builder
 	for _, l := range letters {
-		fmt.Fprintf(&b, "{\"tag\": \"%s\", \"call\": \"target.TargetService.Hello\", \"payload\": {\"name\": \"%s\"}}\n", l, l)
+		payload, meta := fmt.Sprintf("{\"name\": \"%s\"}", l), ""
+		switch variant {
+		case "meta":
+			meta = ", \"metadata\": {\"x-trace\": \"t1\", \"x-user\": \"u\"}"
+		case "emptymeta":
+			payload, meta = "{}", fmt.Sprintf(", \"metadata\": {\"x-letter\": \"%s\"}", l)
+		case "emptydefault":
+			payload = "{}"
+		}
+		fmt.Fprintf(&b, "{\"tag\": \"%s\", \"call\": \"target.TargetService.Hello\", \"payload\": %s%s}\n", l, payload, meta)
+	}
+	return b.String()
+}
+
+func uripostAmmo(letters []string) string {
+	var b strings.Builder
+	for _, l := range letters {
+		fmt.Fprintf(&b, "[X-Letter: %s]\n9 /x %s\nbody=body\n", l, l)
 	}
 	return b.String()
 }
 
 type respPlan struct {
+	av      string // ammo variant: "" | meta | emptymeta | emptydefault | body
 	avail   string // availability history: the target goes away like this (avreset | avhole) and comes back; staged start-up
 	tls     bool   // handshake-level letter: the run goes to the TLS fault target, keep-alive off
 	sub     int    // n+1: the enumerated substr bounds against a header value of n bytes (one instance); 0: not such a run
@@ -349,6 +384,21 @@ func planAll(mixes int, rnd *rand.Rand, h2 bool) []respPlan {
 		plans = append(plans, respPlan{gun: "grpc", posts: "none", letters: repeat(l, shots), timeout: l == "gslow"})
 		plans = append(plans, respPlan{gun: "grpc/scenario", posts: "none", letters: repeat(l, shots), timeout: l == "gslow"})
 	}
+	// the timeout class (and two controls) crossed with the shape of the ammo: metadata none / some, payload empty /
+	// non-empty for the grpc guns; with / without a body for the http guns
+	for _, g := range []string{"grpc", "grpc/scenario"} {
+		for _, av := range []string{"meta", "emptymeta", "emptydefault"} {
+			for _, l := range []string{"gslow", "c0", "c14"} {
+				plans = append(plans, respPlan{gun: g, posts: "none", letters: repeat(l, shots), timeout: l == "gslow", av: av})
+			}
+		}
+	}
+	for _, g := range []string{"http", "http/scenario"} {
+		po := map[string]string{"http": "none", "http/scenario": "all"}[g]
+		plans = append(plans, respPlan{gun: g, posts: po, letters: repeat("timeout", shots), timeout: true, av: "body"})
+		plans = append(plans, respPlan{gun: g, posts: po, letters: repeat("closebefore", shots), av: "body"})
+		plans = append(plans, respPlan{gun: g, posts: po, letters: repeat("s200", shots), av: "body"})
+	}
 	if h2 {
 		for _, g := range []string{"http2", "http2/scenario"} {
 			p := map[string]string{"http2": "none", "http2/scenario": "all"}[g]
@@ -460,7 +510,10 @@ func (t *respTargets) close() {
 
 func runPlan(idx int, p respPlan, t *respTargets, root string) respRun {
 	res := respRun{Run: idx, Gun: p.gun, Posts: p.posts, Shots: shots, Inst: 2, AmmoS: p.letters, Fatal: p.fatal, Mix: p.mix,
-		Samples: []respSample{}, Variant: "plain", Kind: "letters", Cases: []modCase{}}
+		Samples: []respSample{}, Variant: "plain", Kind: "letters", Cases: []modCase{}, AVariant: "plain"}
+	if p.av != "" {
+		res.AVariant = p.av
+	}
 	casePrefix := fmt.Sprintf("r%d_", idx)
 	if p.avail != "" {
 		res.Shots = availShots
@@ -517,23 +570,30 @@ func runPlan(idx int, p respPlan, t *respTargets, root string) respRun {
 			seen = func() int64 { return t.tls.Requests.Load() }
 		}
 		if strings.HasSuffix(p.gun, "/scenario") {
-			ammoType, file, text = "http/scenario", filepath.Join(dir, "payload.yaml"), httpScenarioPayload(p.letters, p.posts)
+			ammoType, file, text = "http/scenario", filepath.Join(dir, "payload.yaml"), httpScenarioPayload(p.letters, p.posts, p.av)
 			if p.sub > 0 {
 				text = substrPayload(casePrefix, res.Vlen, res.Cases)
 			}
 		} else {
 			ammoType, file, text = "uri", filepath.Join(dir, "ammo.uri"), uriAmmo(p.letters)
+			if p.av == "body" {
+				ammoType, file, text = "uripost", filepath.Join(dir, "ammo.uripost"), uripostAmmo(p.letters)
+			}
 		}
 	case "grpc", "grpc/scenario":
+		t.grpc.Default.Store("")
+		if p.av == "emptydefault" {
+			t.grpc.Default.Store(p.letters[0])
+		}
 		target = t.grpc.Addr()
 		seen = t.grpc.Calls
 		if p.timeout {
 			extra = "      timeout: 100ms\n"
 		}
 		if p.gun == "grpc" {
-			ammoType, file, text = "grpc/json", filepath.Join(dir, "ammo.json"), grpcAmmo(p.letters)
+			ammoType, file, text = "grpc/json", filepath.Join(dir, "ammo.json"), grpcAmmo(p.letters, p.av)
 		} else {
-			ammoType, file, text = "grpc/scenario", filepath.Join(dir, "payload.yaml"), grpcScenarioPayload(p.letters)
+			ammoType, file, text = "grpc/scenario", filepath.Join(dir, "payload.yaml"), grpcScenarioPayload(p.letters, p.av)
 		}
 	}
 	var gate *scentarget.Gate
@@ -592,7 +652,11 @@ func runPlan(idx int, p respPlan, t *respTargets, root string) respRun {
 			gate.SetMode("up")
 		}()
 	}
-	res.RunErr = runEngineWith(eng, runLimit)
+	limit := runLimit
+	if p.timeout { // every call of such a run must end by ITS timeout (0.1 .. 0.3 s): a run that is not over after 40 s
+		limit = 40 * time.Second // (normal: 2 .. 5 s) has an instance that is blocked; repeated once alone like any other
+	}
+	res.RunErr = runEngineWith(eng, limit)
 	res.WallMs = int(time.Since(t0) / time.Millisecond)
 	res.Fired, res.Answered = int(m.Request.Get()), int(m.Response.Get())
 	res.Seen = int(seen() - seenBefore)
@@ -719,7 +783,7 @@ func responsesMain(args []string) {
 // 3N tokens fall due at the same instant: all instances complete their first dial by name together.
 func dnsRound(idx, n int, root string) respRun {
 	res := respRun{Run: idx, Gun: "http", Posts: "none", Shots: 4 * n, Inst: n, Samples: []respSample{}, Variant: "plain",
-		Kind: "letters", Cases: []modCase{}}
+		Kind: "letters", Cases: []modCase{}, AVariant: "plain"}
 	for i := 0; i < res.Shots; i++ {
 		res.Ammo = append(res.Ammo, letterOf("avrefused"))
 		res.AmmoS = append(res.AmmoS, "avrefused")
